@@ -15,12 +15,15 @@ generated is C06's business, here only the hand-over protocol matters).
 -/
 namespace RgVerif.ParWalk
 
+/-- Identity of an entry: its path (a list of name codes; the harness uses one-element labels). -/
+abbrev Label := List Nat
+
 /-- An entry (label = identity of the path) with the entries `generate_work` would send for it. -/
 inductive Tree where
-  | node (label : Nat) (kids : List Tree)
+  | node (label : Label) (kids : List Tree)
   deriving Inhabited
 
-def Tree.label : Tree → Nat
+def Tree.label : Tree → Label
   | .node l _ => l
 
 def Tree.kids : Tree → List Tree
@@ -28,10 +31,10 @@ def Tree.kids : Tree → List Tree
 
 mutual
 /-- All entries of a tree (pre-order). -/
-def Tree.entries : Tree → List Nat
+def Tree.entries : Tree → List Label
   | .node l ks => l :: entriesL ks
 /-- All entries of a forest. -/
-def entriesL : List Tree → List Nat
+def entriesL : List Tree → List Label
   | [] => []
   | t :: ts => t.entries ++ entriesL ts
 end
@@ -81,7 +84,7 @@ structure State where
   /-- ghost: some visitor call has returned `WalkState::Quit` -/
   quitAsked : Bool
   /-- labels handed to visitor calls, in order -/
-  visited : List Nat
+  visited : List Label
 
 /-- Victims in the order `Stack::steal` tries them: `index+1 … n-1, 0 … index-1`. -/
 def order (n w : Nat) : List Nat :=
